@@ -94,6 +94,8 @@ def noise_menu(delta):
     m.append(("trunc-left",))
     m.append(("tiny-first",))                  # 3-bp first block right behind the first annotated exon, its bases mismatching the reference
     m.append(("tiny-last",))                   # mirror image: 3-bp last block right before the last annotated exon
+    m.append(("x-first-base", 1))              # a 2-base mismatch at the first aligned bases of an exon (right behind an intron)
+    m.append(("x-first-base", 0))              # ... and of the read (right behind the soft clip, if any)
     m.append(("aligned-polya",))               # the polyA tail aligned as a separate terminal block behind a spurious intron (IsoQuant trims it)
     return m
 
@@ -143,6 +145,11 @@ def derive(devs):
         blocks = [[blocks[0][0] - 400, blocks[0][0] - 376]] + blocks
     if "fake-right" in names:
         blocks = blocks + [[blocks[-1][1] + 380, blocks[-1][1] + 404]]
+    for d in devs:
+        if d[0] == "x-first-base":
+            if d[1] >= len(blocks):
+                return None
+            edits.append([d[1], 0, "X", 2])
     for d in devs:
         if d[0] == "indel-near":
             i = d[1]
@@ -229,6 +236,7 @@ def pipeline_case(args):
     strategy, preset, d, scratch = args[:4]
     mirror = args[4] if len(args) > 4 else 0      # 1: the whole world reverse-complemented ('-' strand gene, polyT heads)
     delta_opt = args[5] if len(args) > 5 else None    # explicit --delta (overrides the preset's tolerance; 0 = exact comparison)
+    eqx = args[6] if len(args) > 6 else 0         # 1: the alignments carry extended CIGAR strings (= / X instead of M)
     from vlib import syn, run
     delta = PRESETS[preset]
     flags = STRATEGIES[strategy]
@@ -264,9 +272,12 @@ def pipeline_case(args):
             reads[nm] = (rd, devs, blocks)
     w["reads"] = [v[0] for v in reads.values()]
     add_second_gene(w, reads, delta)
+    if eqx:
+        for r_ in w["reads"]:
+            r_["eqx"] = True
     if delta_opt is not None:
         delta = delta_opt          # the reads keep the jitter of the preset's menu (+-4/6 and beyond); the tolerance is the explicit one
-    dd = os.path.join(scratch, "c14_%s_%s_%d_%d_%s" % (strategy, preset, d, mirror, delta_opt))
+    dd = os.path.join(scratch, "c14_%s_%s_%d_%d_%s_%d" % (strategy, preset, d, mirror, delta_opt, eqx))
     shutil.rmtree(dd, ignore_errors=True)
     if mirror:
         from props import c11
@@ -513,6 +524,8 @@ def run(ctx):
     jobs = [(s, p, d, ctx.scratch, m) for s in STRATEGIES for p in PRESETS for m in (0, 1)]
     # explicit --delta (0 = exact, 2, 9) on top of the default preset
     jobs += [(s, "default", d, ctx.scratch, 0, dv) for s in STRATEGIES for dv in ((0, 9) if quick else (0, 2, 9))]
+    # extended CIGAR strings
+    jobs += [(s, "default", d, ctx.scratch, m, None, 1) for s in (("none", "default_ont") if quick else STRATEGIES) for m in (0, 1)]
     nbed = nchanged = 0
     for key, errs, nb, ch in core.pmap(pipeline_case, jobs):
         nbed += nb
